@@ -177,12 +177,32 @@ def check_C03(run: Run):
         if W.diff(exp, r["c"]["stmts"], 0.0): run.violation("gate object returned several times by a callback was relabelled more than once", {"p": p, "c": before})
     # --- shorter / longer mappings: refused, atomic
     cases = []
-    for _ in range(run.n(40, 500)):
+    def derangement(k):
+        p = list(range(k))
+        for _ in range(20):
+            rng.shuffle(p)
+            if k < 2 or all(i != v for i, v in enumerate(p)): break
+        return p
+    for _ in range(run.n(60, 600)):
         n = rng.randint(2, 5)
         c = g.circuit(n=n, kinds="all", allow_band=False, length=rng.randint(1, 8))
         k = rng.choice([x for x in range(1, n + 3) if x != n])
-        p = list(range(k)); rng.shuffle(p)
-        cases.append({"p": p, "c": c})
+        cases.append({"p": derangement(k), "c": c})
+    # the uncovered qubit occurs in one nested position only, after statements that are covered
+    from opensquirrel.ir import ControlledGate
+    for _ in range(run.n(120, 1200)):
+        n = rng.randint(3, 5); k = rng.randint(2, n - 1)
+        pre = g.circuit(n=k, kinds="all", allow_band=False, length=rng.randint(1, 4))["stmts"]
+        u = rng.randrange(k, n); a, b = rng.sample(range(k), 2)
+        m = rng.randrange(6)
+        if m == 0: s = g.ctrl_anon(a, u, False)                                  # anonymous control, uncovered target
+        elif m == 1: s = g.ctrl2(a, b, u)                                        # uncovered innermost target
+        elif m == 2: s = g.ctrl2(a, u, b)                                        # uncovered inner control
+        elif m == 3: s = g.matrix_gate([a, u] if rng.random() < 0.5 else [a, b, u])
+        elif m == 4: s = g.named2(a, u)
+        else: s = rng.choice([g.measure(u, 0), g.reset(u), g.named1(u), g.bsr(u, False)])
+        post = g.circuit(n=k, kinds="all", allow_band=False, length=rng.randint(0, 2))["stmts"]
+        cases.append({"p": derangement(k), "c": {"nq": n, "nb": 3, "stmts": pre + [s] + post}})
     def cmp_remap(c, r, m): return cmp_pass({"band": False}, {"err": r["err"], "c": r["c"]}, m)
     res = batch_tie(run, "Circuit.map(short/long mapping)", cases, lambda c: O.req_remap(c["p"], c["c"]), lambda c: O.impl_remap(c["p"], c["c"]), O.parse_pass, cmp_remap)
     for c, r, _ in res:
@@ -516,6 +536,13 @@ def check_C11(run: Run):
             else: r0 = O.impl_decompose(rng.choice(["XYX", "McKay", "ZXZ"]), c)
             if r0["err"] is None: c = r0["c"]
         cases.append({"c": c})
+    # measurement bookkeeping: repeated measurements of few qubits into few bits (bits overwritten, interleaved qubits)
+    for _ in range(run.n(60, 600)):
+        nq = rng.randint(1, 3); nb = rng.randint(1, 3)
+        st = []
+        for _ in range(rng.randint(2, 9)):
+            st.append(g.measure(rng.randrange(nq), rng.randrange(nb)) if rng.random() < 0.8 else g.reset(rng.randrange(nq)))
+        cases.append({"c": {"nq": nq, "nb": nb, "stmts": st}})
     import opensquirrel.default_gates as dg
     from opensquirrel.ir import Float
     for th in (-0.5, 0.5, 2.0, -2.0):       # the negated-axis forms merging produces
